@@ -223,6 +223,9 @@ func Utf8ToBig5(utf8 string) (big5 []byte) {
 
 func TrimDBCS(theCstr Cstr) (theBytes []byte) {
 	theBytes = CstrToBytes(theCstr)
+	if len(theBytes) == 0 {
+		return theBytes
+	}
 	if theBytes[len(theBytes)-1] >= 0x80 {
 		theBytes[len(theBytes)-1] = 0
 		theBytes = theBytes[:len(theBytes)-1]
